@@ -99,7 +99,7 @@ def run(rep, ctx):
                               r"mp::internal::SolverNLHandlerImpl::OnHeader", r"mp::SolutionWriterImpl::[A-Za-z]*Solution",
                               r"mp::SolutionAdapter::.*", r"mp::Error::Error", r"mp::WriteSolFile", r"mp::BasicExprVisitor::VisitUnsupported",
                               r"mp::BasicProblem::SuffixHandler::SetValue"],
-                 repo=repo),
+                 repo=repo, closure=1, closure_roots=r"SolutionWriterImpl::HandleSolution$"),
             dict(unit="src/posix.cc", fn=[r"fmt::BufferedFile::(close|BufferedFile|~BufferedFile)"], repo=repo),
             dict(unit=CU, fn=[r"mp::BasicExprVisitor::VisitUnsupported", r"mp::FlatConverter::ConvertItems"], repo=repo)]
     F = Facts(export_many(jobs))
